@@ -62,6 +62,16 @@ def make_stream(kind, data, rnd=None, faults=None, seg=None, bufsize=4096):
         return io.BytesIO(data), True
     if kind == "buffered":
         return io.BufferedReader(io.BytesIO(data), buffer_size=rnd.choice([1, 16, 4096]) if rnd else 16), True
+    if kind == "pipe":
+        # a NON-SEEKABLE io stream (the read end of a pipe: tell() / seek() raise); small enough for the pipe buffer
+        import os as _os
+
+        if len(data) > 60000:
+            return io.BytesIO(data), True
+        rfd, wfd = _os.pipe()
+        _os.write(wfd, data)
+        _os.close(wfd)
+        return _os.fdopen(rfd, "rb"), True
     if kind == "socket":
         # public API only: the wrapper is built explicitly and the recording proxy sits between the
         # reader and the wrapper (the reader's own isinstance(socket) wrapping is exercised, without
@@ -92,6 +102,8 @@ class Traces:
         finally:
             if kind == "socket":
                 stream._verif_sock.close()
+            elif kind == "pipe":
+                stream.close()
         self.traces.append({"tid": tid, "validate": int(validate), "parsed": bool(parsed), "quit": int(quit), "hraise": bool(hraise), "ev": ev})
         meta.update(kind=kind, validate=validate, parsed=parsed, quit=quit, handler=handler, data=data, faults=faults, seg=seg)
         self.meta[tid] = meta
